@@ -16,6 +16,13 @@ RULE = ('seeded streams with 0-20 Pings (payload lengths 0..125, arbitrary '
         'does not remove the Ping event or the events of data already read.  '
         'Non-trivial = >= 1 Ping received after Ready; distinct = distinct '
         '(event names, ping positions, mode) signatures')
+RULE += (' '
+         'Also: a refused close() call (over-long reason) followed by Pings, '
+         'really compressed data messages with Pings between their '
+         'fragments, a `pair` family (two connections interleaved), '
+         'ThreadSim families (application close() racing the automatic '
+         'Pong), and on a failed Pong write everything that had ARRIVED by '
+         'then must still be delivered.')
 SHRINK_LISTS = [('items',), ('items', '*', 'inner', '*'), ('cuts',)]
 EXPECTED_PROBES = ['ping_between_fragments', 'many_pings_one_read',
                    'ping_in_reply_read', 'ping_then_close_same_read',
